@@ -2,9 +2,13 @@
 //! on case files and prints one canonical observation per case.
 mod codec;
 mod dynval;
+mod ioops;
 mod sx;
 mod util;
 mod varint;
+
+#[global_allocator]
+static GLOBAL: util::Counting = util::Counting;
 
 fn main() {
     let args: Vec<String> = std::env::args().collect();
@@ -15,6 +19,7 @@ fn main() {
     let rest = &args[2..];
     match args[1].as_str() {
         "codec" => codec::cases(rest),
+        "ioops" => ioops::cases(rest),
         "varint-cases" => varint::cases(rest),
         "varint-sweep" => varint::sweep(rest),
         other => {
